@@ -806,6 +806,16 @@ pub fn huge_list(_tier: Tier) -> Scenario {
     s
 }
 
+/// (round 8) a request line longer than MPD's 4 KiB input buffer, issued from the idling state and from the
+/// window after a reply: whatever the client does with it, the session stays legal and idle is resumed
+pub fn micro_long_line(tier: Tier) -> Scenario {
+    let mut s = micro(tier);
+    s.name = "micro-long-request-line".into();
+    s.callers = vec![caller(vec![Op::Raw(format!("cmd {}", "x".repeat(5000))), Op::Raw(format!("cmd {}", "y".repeat(4200))), Op::Raw("cmd A3".into())])];
+    s.split_menu = SplitMenu::Lines;
+    s
+}
+
 pub fn micro2(_tier: Tier) -> Scenario {
     let mut s = Scenario::new("micro-2-requests-2-notifications", vec![caller(vec![Op::Raw("cmd A1".into()), Op::Raw("cmd A2".into())])]);
     s.notify_names = vec!["player", "mixer"];
@@ -1136,7 +1146,7 @@ pub fn find_scenario_any(name: &str) -> Option<Scenario> {
 }
 
 fn find_scenario(name: &str, tier: Tier) -> Option<Scenario> {
-    let mut all = vec![s1(tier), s1p(tier), s2(tier), s3(tier), micro(tier), micro2(tier), s4(tier), micro_fault(tier), s5(tier), micro_ticks(tier), micro_stall(tier), micro_cancel(tier), s6(tier), s4c(tier), idle_refused(tier), art_fault(tier), early_fault(tier), micro_non_ascii(tier), micro_password(tier), huge_list(tier)];
+    let mut all = vec![s1(tier), s1p(tier), s2(tier), s3(tier), micro(tier), micro2(tier), s4(tier), micro_fault(tier), s5(tier), micro_ticks(tier), micro_stall(tier), micro_cancel(tier), s6(tier), s4c(tier), idle_refused(tier), art_fault(tier), early_fault(tier), micro_non_ascii(tier), micro_password(tier), huge_list(tier), micro_long_line(tier)];
     for base in [micro(Tier::Quick), micro2(Tier::Quick)] {
         let mut e = base.clone();
         e.split_menu = SplitMenu::Lines;
@@ -1427,6 +1437,7 @@ pub fn run_c05(tier: Tier) -> i32 {
         Plan { scn: micro_stall(tier), bound: tier.pick(4, 5) },
         Plan { scn: micro_password(tier), bound: tier.pick(4, 6) },
         Plan { scn: huge_list(tier), bound: 0 },
+        Plan { scn: micro_long_line(tier), bound: tier.pick(3, 4) },
     ];
     let (cov, viol) = run_plans(
         &ctx,
